@@ -314,7 +314,7 @@ func init() {
 		Doc:  "paired in/out adjacency updates, copy freshness, reverse view, purity of read-only methods (package graph)",
 		Run:  runMirror,
 		Floor: map[string]int{
-			"MIRROR-EDGE": 2, "MIRROR-DEL": 2, "MIRROR-REMOVE": 5, "MIRROR-ADD": 4, "COPY": 4, "REVERSE": 3, "PURITY": 8, "MIRROR-KEY": 6, "MIRROR-VERT": 1,
+			"MIRROR-EDGE": 2, "MIRROR-DEL": 2, "MIRROR-REMOVE": 5, "MIRROR-ADD": 4, "COPY": 4, "REVERSE": 3, "PURITY": 8, "MIRROR-KEY": 6, "MIRROR-VERT": 3,
 		},
 	})
 }
